@@ -11,6 +11,12 @@ CLAIMED = {
  "C17": dict(cat="proof", technique="Coq invariant proof over a line-by-line Gallina model of state_machine.rs (any tables) + in-Coq correspondence with the real Parser::drive on tables read from lalrpop's output",
    text="Full for the table-driven back end: LR/Driver.v models Parser::{drive,parse,parse_eof,error_recovery,accepts,next_token} and the generated __reduce/__accepts; Props/C17.v proves for ALL tables, oracles, inputs and fuel that a stream Err(e) that is reached is returned verbatim, is the last item pulled and the last event, and that a failing =>? action (in ordinary reduces, at EOF, or inside error recovery's reductions) ends the run with exactly User{e} as the last event. Tie: the real Parser::drive is run over tables translated from freshly generated parsers (lane/LALR/LR1) with injected stream errors and failing-action oracles and compared inside Coq (vm_compute) with the model; the statement is also judged directly on every implementation output. Recursive-ascent back end and the Result->User conversion of __ToTriple are covered by the compiled-parser tier only.",
    ref="DESIGN.md §4 C17", note="Trusted: Coq kernel + vm_compute; tools/lrtab.py reading literals; harness/drv.rs glue mirroring generated __reduce; user actions abstracted as an oracle. No axioms."),
+ "C01": dict(cat="proof", technique="verified validator (Coq: soundness + completeness of the LR driver for every table/certificate pair passing `valid`) + per-run kernel-checked certificates for the tables lalrpop generates + in-Coq correspondence of the driver model with the real Parser::drive",
+   text="Table-driven back end, all three construction algorithms: Props/C01.v proves for ALL tables A and certificates C with `valid A C = true` (no recovery) and ALL token sequences that the driver model returns Ok exactly on the yields of derivation trees of the start symbol, returns that tree, and that such grammars are unambiguous (big-step completeness by induction on trees, soundness by a stack invariant; no bound on input length). Per run: lalrpop is rebuilt from /repo, run on corpus + random grammars in lane/LR1/LALR modes, the emitted tables are translated and `shape/complete/exact/start_eof_only` are checked by the kernel (vm_compute); the real Parser::drive is run over the same tables and compared inside Coq with the model; membership is judged independently by an Earley recogniser. Partial: grammars per run are a finite corpus (the lane-table/LALR constructions themselves are not verified for all grammars); the recursive-ascent generator is covered only through compiled parsers; recovery grammars only via C16.",
+   ref="DESIGN.md §4 C01", note="Trusted: Coq kernel + vm_compute; tools/lrtab.py (reads literals + production comments); harness/drv.rs glue; certificate generator untrusted. No axioms."),
+ "C02": dict(cat="proof", technique="Coq stack-invariant proof (trace of actions = post-order of the returned tree; tree = derivation of the input) on validated tables + in-Coq correspondence with the real driver",
+   text="Props/C02.v: for all validated tables and all inputs, the user actions that ran, in order, are exactly the post-order traversal of the unique derivation tree (each node once), each action's children are its production's symbols left to right, and the leaves are the input tokens. Tied per run like C01; the statement is also judged directly on every implementation output. Partial: what a *missing* action denotes (default actions, <>, tuple patterns) lives in normalize/lower and is exercised by the compiled-parser tier, not by a theorem yet.",
+   ref="DESIGN.md §4 C02", note="Trusted: as C01; user action code abstracted to tree construction. No axioms."),
 }
 NOT_YET = "check not built yet in this round (see DESIGN.md §9 staging); not claimed until its check runs clean"
 
